@@ -56,6 +56,13 @@ theorem psdCert_sound (M V : Mat ℂ n n) (lam : Fin n → ℝ) (ε : ℝ) (hε 
   rw [this]
   exact hPpsd.add hR
 
+/-- the executed decider (complex rationals) accepts exactly when the three hypotheses of `psdCert_sound`
+hold for its input: `ε ≥ 0`, `M` exactly Hermitian, squared residual `≤ ε²`. -/
+theorem psdCert_iff (M V : Mat CRat n n) (lam : Vec Rat n) (eps : Rat) :
+    psdCert M V lam eps = true ↔
+      0 ≤ eps ∧ M = adj M ∧ (frob2 (psdResid M V (clipPos lam))).re ≤ eps * eps := by
+  simp [psdCert, Bool.and_eq_true, decide_eq_true_eq, and_assoc]
+
 /-- `unitaryCert` with `ε = 0` certifies exact unitarity; in general it bounds `‖UᴴU − 1‖_F` by `ε`
 (this is the definition; the residual is `UᴴU − 1` as a Mathlib matrix). -/
 theorem unitaryResid_toM (U : Mat ℂ n n) : (unitaryResid U).toM = U.toMᴴ * U.toM - 1 := by
